@@ -74,6 +74,8 @@ def _alarm(signum, frame):
     raise Slow()
 
 
+RAISES = object()   # expect_auto: the documented quirk - the auto round trip of this value raises (normalize = none)
+
 CAP = 4.0       # wall-clock cap per library call on damaged / adversarial input (guards the harness itself)
 
 
@@ -158,6 +160,31 @@ def check_value(ctx, W, B, c, v, tag, modes=(False, True), expect_auto=None, mod
         st, r = lib_deser(W, ser + b'', auto)
         want = v if (not auto or expect_auto is None) else expect_auto
         mode = 'auto' if auto else 'plain'
+        if auto and model and not big:
+            # c14_roundtrip_auto evaluated on the library: Lean's normalize(v) is what the library returns (both may raise)
+            def cb_norm(out, line, st=st, r=r, inp=inp):
+                if st != 'ok':
+                    ok = out == 'err'
+                else:
+                    ok = False
+                    if out.startswith('ok '):
+                        try:
+                            ok = r[1] == len(ser) and V.same(V.parse_tok(W, out[3:]), r[0])
+                        except Exception:
+                            ok = False
+                if not ok:
+                    ctx.corr_broken(f'tlnorm: model={out[:300]} library={str(r)[:300]} ctor={inp["ctor"]} request={line[:300]}')
+                    ctx.count('driver_disagreements')
+            B.add(f'tlnorm {c["idx"]} {tok}', cb_norm)
+        if want is RAISES:
+            ctx.count('auto:raises-as-documented' if st != 'ok' else 'auto:documented-raise-did-not-happen')
+            if model and not big:
+                def cb_err(out, line, st=st, r=r, inp=inp):
+                    if (out == 'err') != (st != 'ok'):
+                        ctx.corr_broken(f'tldeser-auto(string with a registered prefix): model={out[:200]} library={str(r)[:200]} ctor={inp["ctor"]}')
+                        ctx.count('driver_disagreements')
+                B.add(f'tldeser {ser.hex()} 1', cb_err)
+            continue
         if st != 'ok':
             ctx.fail(f'deser-raised-{mode}:{c["name"]}', 'deserialize raised on the serialisation of a well-typed value', inp, r, want)
             continue
@@ -290,6 +317,77 @@ def nested_in_bytes(ctx, W, B):
         exp = dict(v)
         exp[a['field']] = exp_field
         check_value(ctx, W, B, host, v, 'nested-in-bytes', expect_auto=exp)
+
+
+def _untouchable(W, c, field):
+    return field in W.lib.untouchables.get(c['name'], ())
+
+
+def _bytes_fields(c, v):
+    return [a for a in c['args'] if a['ety'] == ('base', 'bytes') and not a['vec'] and a['field'] in v]
+
+
+def auto_obj(ctx, W, rng, c, depth, pools):
+    """a canonical value of c in which one bytes field (if any) holds a constructed content, and what the auto round
+    trip must turn it into (independent transcription of the re-parse loop for contents built from known parts)."""
+    v = V.gen_obj(W, rng, c, 0, {'depth': 1, 'big': False})
+    exp = dict(v)
+    fields = _bytes_fields(c, v)
+    if fields and depth > 0:
+        a = rng.choice(fields)
+        content, e = auto_content(ctx, W, rng, depth, pools)
+        v[a['field']] = content
+        exp[a['field']] = content if _untouchable(W, c, a['field']) else e
+    return v, exp
+
+
+def auto_content(ctx, W, rng, depth, pools):
+    kind = rng.choice(['one', 'one', 'many', 'tail', 'tail', 'plain', 'empty', 'deep'])
+    ctx.count('auto-shape:' + kind)
+    if kind == 'plain':
+        b = V.rand_bytes(W, rng, rng.randrange(1, 12))
+        return b, b
+    if kind == 'empty':
+        return b'', b''
+    k = {'one': 1, 'deep': 1, 'many': rng.choice([2, 3, 4]), 'tail': rng.choice([1, 2])}[kind]
+    parts, exps = [], []
+    for _ in range(k):
+        ic = rng.choice(pools[1] if kind == 'deep' else pools[0])
+        iv, iexp = auto_obj(ctx, W, rng, ic, depth - 1, pools)
+        parts.append(V.enc_obj(W, ic, iv, True))
+        exps.append(iexp)
+    if kind == 'tail':                                  # bytes of an unknown id after the objects stay bytes in the list
+        junk = V.rand_bytes(W, rng, rng.randrange(1, 9))
+        parts.append(junk)
+        exps.append(junk)
+    return b''.join(parts), (exps[0] if len(exps) == 1 else exps)
+
+
+def auto_shapes(ctx, W, B):
+    """the general auto-deserialise statement (c14_roundtrip_auto / c14_reparse_objects): contents that DO start with a
+    registered id - one object, several, objects followed by foreign bytes, nesting to depth 3 - and strings that start
+    with a registered id (the call raises)."""
+    rng = ctx.rng
+    hosts = [c for c in W.ctors if W.fully_typed(c) and W.canonical(c) and
+             any(a['ety'] == ('base', 'bytes') and not a['vec'] and a['cond'] is None for a in c['args'])]
+    pool = [c for c in W.ctors if W.covered(c) and W.canonical(c)]
+    pools = (pool, hosts)
+    for _ in range(ctx.n(300, 3000)):
+        host = rng.choice(hosts)
+        v, exp = auto_obj(ctx, W, rng, host, 3, pools)
+        check_value(ctx, W, B, host, v, 'auto-shape', expect_auto=exp)
+    # strings: ids whose four little-endian bytes are ASCII letters/digits
+    ascii_ids = [c['id'].to_bytes(4, 'little') for c in W.ctors if all(0x20 <= x < 0x7f for x in c['id'].to_bytes(4, 'little'))]
+    shosts = [c for c in W.ctors if W.fully_typed(c) and W.canonical(c) and
+              any(a['ety'] == ('base', 'string') and not a['vec'] and a['cond'] is None for a in c['args'])]
+    ctx.count('ascii_ids', len(ascii_ids))
+    if ascii_ids and shosts:
+        for _ in range(ctx.n(40, 400)):
+            host = rng.choice(shosts)
+            v = V.gen_obj(W, rng, host, 0, {'depth': 1, 'big': False})
+            a = rng.choice([a for a in host['args'] if a['ety'] == ('base', 'string') and not a['vec'] and a['cond'] is None])
+            v[a['field']] = rng.choice(ascii_ids).decode() + ''.join(rng.choice('abc 019') for _ in range(rng.randrange(0, 12)))
+            check_value(ctx, W, B, host, v, 'string-with-registered-prefix', expect_auto=RAISES)
 
 
 def check_blockid(ctx, W, B):
@@ -435,6 +533,7 @@ def run(ctx):
                 sers.append((ser, c))
     string_sweep(ctx, W, B)
     nested_in_bytes(ctx, W, B)
+    auto_shapes(ctx, W, B)
     for ser, c in sers:
         damaged(ctx, W, B, ser, c)
     check_blockid(ctx, W, B)
